@@ -91,6 +91,8 @@ def gen_dist_case(rng, quick, shape=None):
         c["random_state"] = rng.choice([0, 1, 7, 12345])
     else:
         c["init"] = rng.randrange(ncand)
+        if rng.random() < 0.3:
+            c["init"] -= ncand                      # numpy-style negative index of the same item
         c["random_state"] = 0
     c["nts"] = rng.randint(1, ncand)
     r = rng.random()
@@ -111,7 +113,7 @@ def gen_dist_case(rng, quick, shape=None):
         pc = pm if c["axis"] == 1 else pn
         c["prefit"] = dict(how=how, X=pre["X"], Y=pre["Y"],
                            mixing=rng.choice([m_ for m_ in (0.0, 0.3, 0.8) if m_ != c["mixing"]]),
-                           nts=rng.randint(1, pc), init=rng.randrange(pc))
+                           nts=rng.randint(1, pc), init=rng.randrange(pc) - (pc if rng.random() < 0.3 else 0))
     elif r < 0.45 and c["nts"] >= 2:
         # cold fit with fewer selections, then warm-started continuation on the same data
         c["warm_from"] = rng.randint(1, c["nts"] - 1)
@@ -146,8 +148,9 @@ def run_dist_impl(c):
                 sel.fit(X, Y)
     except Exception as e:      # noqa
         return dict(error=type(e).__name__, error_msg=str(e)[:200])
+    ncand = X.shape[c["axis"]]
     out = dict(D=[[float(v) for v in r] for r in np.asarray(sel.pcovr_distance_)],
-               sel=[int(i) for i in sel.selected_idx_],
+               sel=norm_list(sel.selected_idx_, ncand), sel_raw=[int(i) for i in sel.selected_idx_],
                haus=[float(v) for v in sel.get_distance()],
                seld=[float(v) for v in sel.get_select_distance()])
     if c["init"] == "random":
@@ -157,7 +160,7 @@ def run_dist_impl(c):
             with warnings.catch_warnings():
                 warnings.simplefilter("ignore")
                 sel2.fit(X, Y)
-            out["sel_again"] = [int(i) for i in sel2.selected_idx_]
+            out["sel_again"] = norm_list(sel2.selected_idx_, ncand)
         except Exception as e:      # noqa
             out["sel_again"] = ["raised " + type(e).__name__]
     return out
@@ -334,8 +337,9 @@ def dist_oracle(c, r):
         if r.get("sel_again") is not None and r["sel_again"] != sel:
             return "initialize='random' with random_state=%s is not reproducible: %s, then %s on a fresh object" % (
                 c.get("random_state", 0), sel, r["sel_again"])
-    elif sel[0] != c["init"]:
-        return "first selection %d is not the requested %d" % (sel[0], c["init"])
+    elif sel[0] != norm_idx(c["init"], ncand):
+        return "first selection is item %d, the requested initialize=%d is item %d" % (
+            sel[0], c["init"], norm_idx(c["init"], ncand))
     _, _, g = hints(c)
     if g is not None:
         return None             # ill-conditioned distance matrix: only the loop replay applies
@@ -372,6 +376,7 @@ def gen_fpsfloat_case(rng, quick):
     else:
         init = "random"
     ninit = len(init) if isinstance(init, list) else 1
+    init = negate_some(rng, init, ncand)
     c = dict(X=X.tolist(), axis=axis, init=init, nts=rng.randint(ninit, ncand), family=fam,
              dtype=rng.choice(["float64", "float64", "float32", "fortran"]))
     if rng.random() < 0.3 and c["nts"] > ninit:
@@ -403,7 +408,8 @@ def run_fpsfloat_impl(c):
                 sel.fit(X)
     except Exception as e:      # noqa
         return dict(error=type(e).__name__, error_msg=str(e)[:200])
-    return dict(sel=[int(i) for i in sel.selected_idx_],
+    ncand = X.shape[c["axis"]]
+    return dict(sel=norm_list(sel.selected_idx_, ncand), sel_raw=[int(i) for i in sel.selected_idx_],
                 haus=[float(v) for v in sel.get_distance()],
                 seld=[float(v) for v in sel.get_select_distance()])
 
@@ -419,9 +425,9 @@ def fpsfloat_oracle(c, r):
     if init == "random":
         inits = [sel[0]]
     else:
-        inits = init if isinstance(init, list) else [init]
+        inits = norm_list(init if isinstance(init, list) else [init], n)
     if sel[:len(inits)] != list(inits):
-        return "initial selections %s are not the requested %s" % (sel[:len(inits)], inits)
+        return "initial selections are items %s, the requested initialize=%s are items %s" % (sel[:len(inits)], init, inits)
     if len(sel) != c["nts"]:
         return "selected %d items, requested %d" % (len(sel), c["nts"])
     D = ((cs[:, None, :] - cs[None, :, :]) ** 2).sum(axis=2)
@@ -540,3 +546,50 @@ def run_chain_present(kind, axis, Xrows, y, init, stages, how, extra=None, scale
         if "error" in rec:
             break
     return out, sel
+
+
+# ------------------------------------------------------------------ negative initial indices
+# `initialize` may be a numpy-style negative index (-1 = last item ... -n = first item), as an int or as
+# entries of the list.  What the unchanged code does (probed): norms_/hausdorff_/X[...] are indexed with
+# the value as given (so -k addresses item n-k), the arg-max mask scores[selected_idx_] = -inf hides that
+# item, and selected_idx_ / get_support(indices=True) KEEP the negative value.  The model and the
+# brute-force oracle therefore work with the item n+i; the raw stored value is compared as found.
+def negate_some(rng, init, ncand, p=0.3):
+    """rewrite some initial indices as their negative equivalent i - n (same items, still distinct)."""
+    if init == "random":
+        return init
+    if isinstance(init, list):
+        return [i - ncand if rng.random() < p else i for i in init]
+    return init - ncand if rng.random() < p else init
+
+
+def norm_idx(i, n):
+    return i + n if i < 0 else i
+
+
+def norm_list(l, n):
+    return [norm_idx(int(i), n) for i in l]
+
+
+def has_negative(init):
+    if init == "random":
+        return False
+    return any(i < 0 for i in (init if isinstance(init, list) else [init]))
+
+
+def raw_index_check(init, sel_raw, sorted_raw=None):
+    """selected_idx_ stores the requested initial indices as given (negative values kept), every later
+    selection is an arg-max result (>= 0), and get_support(indices=True) is the sorted stored sequence.
+    None or a message (a correspondence statement about the bookkeeping, not about distances)."""
+    if init == "random":
+        given = []
+    else:
+        given = list(init) if isinstance(init, list) else [init]
+    if list(sel_raw[:len(given)]) != given:
+        return "selected_idx_ starts with %s, the requested initial indices are %s (stored as given)" % (
+            list(sel_raw[:len(given)]), given)
+    if any(i < 0 for i in sel_raw[len(given):]):
+        return "a selection made by the loop is negative: %s" % list(sel_raw)
+    if sorted_raw is not None and list(sorted_raw) != sorted(sel_raw):
+        return "get_support(indices=True) = %s is not the sorted selected_idx_ %s" % (list(sorted_raw), sorted(sel_raw))
+    return None
